@@ -145,6 +145,10 @@ fn position_line(rng: &mut Rng, corrupt_it: bool) -> String {
 }
 
 fn junk_line(rng: &mut Rng) -> String {
+    // now and then a line that is blank but not empty
+    if rng.below(40) == 0 {
+        return [" ", "\t", "   ", " \t  \t", "\r", " \r"][rng.below(6) as usize].to_string();
+    }
     let n = rng.below(7);
     let mut toks: Vec<String> = vec![];
     for _ in 0..n {
